@@ -95,15 +95,18 @@ def ws2dwcvp(y, nodata, p, llas, robust, out, lopt):
                 gamma = w_temp / (w_temp + s * ((-1 * d_eigs) ** 2))
                 r_arr = y - y_temp
 
-                mad = np.median(
-                    np.abs(r_arr[r_weights != 0] - np.median(r_arr[r_weights != 0]))
-                )
-                u_arr = r_arr / (1.4826 * mad * np.sqrt(1 - gamma.sum() / n))
+                # robust weights from the residuals of the valid cells only
+                r_sel = r_arr[(r_weights != 0) & (w != 0)]
+                mad = np.median(np.abs(r_sel - np.median(r_sel)))
 
-                r_weights = (1 - (u_arr / 4.685) ** 2) ** 2
-                r_weights[(np.abs(u_arr / 4.685) > 1)] = 0
+                # mad == 0 (more than half of the residuals equal): keep the weights
+                if mad > 0:
+                    u_arr = r_arr / (1.4826 * mad * np.sqrt(1 - gamma.sum() / n))
 
-                r_weights[r_arr > 0] = 1
+                    r_weights = (1 - (u_arr / 4.685) ** 2) ** 2
+                    r_weights[(np.abs(u_arr / 4.685) > 1)] = 0
+
+                    r_weights[r_arr > 0] = 1
 
             robust_weights = w * r_weights
 
@@ -214,15 +217,18 @@ def _ws2dwcvp(y, w, p, llas, robust):
             gamma = w_temp / (w_temp + s * ((-1 * d_eigs) ** 2))
             r_arr = y - y_temp
 
-            mad = np.median(
-                np.abs(r_arr[r_weights != 0] - np.median(r_arr[r_weights != 0]))
-            )
-            u_arr = r_arr / (1.4826 * mad * np.sqrt(1 - gamma.sum() / n))
+            # robust weights from the residuals of the valid cells only
+            r_sel = r_arr[(r_weights != 0) & (w != 0)]
+            mad = np.median(np.abs(r_sel - np.median(r_sel)))
 
-            r_weights = (1 - (u_arr / 4.685) ** 2) ** 2
-            r_weights[(np.abs(u_arr / 4.685) > 1)] = 0
+            # mad == 0 (more than half of the residuals equal): keep the weights
+            if mad > 0:
+                u_arr = r_arr / (1.4826 * mad * np.sqrt(1 - gamma.sum() / n))
 
-            r_weights[r_arr > 0] = 1
+                r_weights = (1 - (u_arr / 4.685) ** 2) ** 2
+                r_weights[(np.abs(u_arr / 4.685) > 1)] = 0
+
+                r_weights[r_arr > 0] = 1
 
         robust_weights = w * r_weights
 
